@@ -18,9 +18,9 @@ VARIABLES para, base, hist
 vars == <<para, base, hist>>
 View == <<para>>
 
-KeyIds == {1, 2}
+KeyIds == {1, 2, 3}     \* name 3 differs from name 1 by CASE only (names are compared exactly)
 Vals == 1..6
-Bases == << <<>>, << <<1, 1>> >>, << <<1, 2>>, <<2, 3>> >>, << <<1, 4>>, <<2, 1>>, <<1, 5>> >>, << <<2, 6>>, <<2, 6>> >> >>
+Bases == << <<>>, << <<1, 1>> >>, << <<1, 2>>, <<2, 3>> >>, << <<1, 4>>, <<2, 1>>, <<1, 5>> >>, << <<2, 6>>, <<2, 6>> >>, << <<1, 1>>, <<2, 2>>, <<3, 3>>, <<1, 4>> >> >>
 Op(op, k, v) == [op |-> op, k |-> k, v |-> v]
 Emit(o, p2) == PrintT(<<"REPLAY", ToJson([p0 |-> Bases[base], h |-> hist, op |-> o, t |-> p2,
                         get |-> [k \in KeyIds |-> IF FirstIdx(p2, k) = 0 THEN 0 ELSE p2[FirstIdx(p2, k)][2]]])>>)
